@@ -17,3 +17,5 @@ import I3.Model.BabyJub
 import I3.Model.EdDSA
 import I3.Model.Codec
 import I3.Model.Limbs
+import I3.Model.Instances
+import I3.Model.BlakeStream
